@@ -566,14 +566,14 @@ fn iter_exhaustive(sink: &mut Sink, rng: &mut Rng, max_entries: usize, max_calls
                 let hk = rng.pick(&[HKind::Mix, HKind::Const, HKind::Ident]);
                 let mut w = sink.begin_seq(hk, "iter-exhaustive");
                 setup_entries(sink, &mut w, n, usize::MAX, None);
-                let op = OpKind::It { kind, calls: calls.clone(), forget };
+                let op = OpKind::It { kind, calls: calls.clone(), forget, unwind: !forget && idx % 3 == 0 };
                 sink.step(&mut w, &gen::mk_line(true, Op::On { c: 0, op }));
                 if !kind.consumes() {
                     // the cache must be fully usable afterwards
                     let kt = types::peek_next_tok();
                     sink.step(&mut w, &gen::mk_line(true, Op::On { c: 0, op: OpKind::Ins { id: 100, kh: 0, kt, vh: 3, vt: kt + 1 } }));
                     sink.step(&mut w, &gen::mk_line(true, Op::On { c: 0, op: OpKind::Get(0) }));
-                    sink.step(&mut w, &gen::mk_line(true, Op::On { c: 0, op: OpKind::It { kind: IterKind::Iter, calls: vec![true, false, true], forget: false } }));
+                    sink.step(&mut w, &gen::mk_line(true, Op::On { c: 0, op: OpKind::It { kind: IterKind::Iter, calls: vec![true, false, true], forget: false, unwind: false } }));
                 }
                 sink.end_seq(w);
             }
@@ -1008,7 +1008,7 @@ fn exhaustive(sink: &mut Sink, depth: usize, shard: (u64, u64)) {
         |_, _, _| OpKind::RetainIdx(vec![false, true]),
         |_, _, _| OpKind::ShrinkFit,
         |_, _, _| OpKind::Reserve(5),
-        |_, _, _| OpKind::It { kind: IterKind::Drain, calls: vec![true], forget: false },
+        |_, _, _| OpKind::It { kind: IterKind::Drain, calls: vec![true], forget: false, unwind: false },
         |_, _, _| OpKind::Clear,
     ];
     let a = alphabet.len();
